@@ -4,11 +4,13 @@ UNITS = []
 MIN_OBLIGATIONS = 8
 DESIGN_REF = 'DESIGN.md section 3, C18'
 TECHNIQUE = 'deductive verification: value-equality obligation on the real Source class (== and hash resolved from its source), percentile bounds by real arithmetic; z3'
-LEVEL_TEXT = ('Two lemma units evaluate python\'s == and hash() on two Source objects exactly as the class defines them (identity when the class has no __eq__): '
+LEVEL_TEXT = ('Two lemma units evaluate python\'s == and hash() on two Source objects exactly as the class defines them (identity when the class has no __eq__; `is` between field values is not equality): '
               'equal method/service/endpoint/client_id imply a == b and hash(a) == hash(b); different fields imply a != b -- so dictionary series are keyed by value and their number is bounded by the number of distinct sources. '
-              'VarzAggregator.CalculatePercentile on a sorted sample is proved (non-linear real arithmetic) to return a value between the smallest and the largest retained sample, and 0 on an empty one.')
-LEVEL_NOTE = ('Trusted: pyvc encoding (floats as reals, math.floor/ceil as mathematical), z3. Not under contract in this version: the keyed update functions IncrementVarz/SetVarz/RecordPercentileSample '
-              '(one-line dictionary updates through a defaultdict), VarzAggregator.Aggregate (sum per service) and _Downsample; monotonicity of the percentile in pct was attempted as a two-run lemma and left out because the mixed exact/interpolated case stays undecided in z3 and cvc5.')
+              'VarzReceiver.IncrementVarz / SetVarz (through the two-level defaultdict, keyed by that value equality): exactly the series (metric, source) changes, by exactly the amount (negative amounts included) resp. to exactly the value; every other series keeps its value -- so a counter series is the running sum of its increments and a gauge the last value set. '
+              'VarzAggregator.CalculatePercentile on a sorted sample returns a value between the smallest and the largest retained sample, and 0 on an empty one.')
+LEVEL_NOTE = ('Trusted: pyvc encoding (floats as reals, math.floor/ceil as mathematical), z3. BOUNDED, not proved: percentiles aggregated per service are non-decreasing in the percentile and, for a single source, within the sample range -- '
+              'checked on every run on the real RecordPercentileSample + Aggregate over a fixed finite family (see the evidence, `bounded`); monotonicity in pct as a two-run lemma stays undecided in z3 and cvc5. '
+              'Not under contract: VarzAggregator.Aggregate\'s per-service summation, _Downsample, RecordPercentileSample.')
 ASSUMPTIONS = ['field values of a Source compare by value (strings)', 'reals for floats']
 TRUSTED = []
 BOUNDED = [dict(name='aggregated-percentiles-monotone-and-in-range', replay_unit='VarzAggregator.Aggregate',
